@@ -123,6 +123,25 @@ class Builder:
             if sh.running: sh.set(i, 'D'); sh.closure([i], True)
         self.emit(f'unkill {i}'); sh.kills[i] = []
         return True
+    def delraise(self):
+        """a destructor that raises under an EXPLICIT deletion, outside a collection (in contract: the exception unwinds through
+        GC_Rem_Ptr / GC_Rem, the registry stays exact: theorem C17_rem_raising).  The raise is armed on the deleted object or on one
+        its destructor deletes, and disarmed right after the deletion: a raising destructor is never left for a collection
+        (known finding KF-C17-dtor-raise)."""
+        sh = self.sh; rng = self.rng
+        i = sh.pick(rng, 'M', 'U')
+        if i is None: return False
+        j = i
+        cand = [y for y in sh.kills.get(i, []) if sh.st.get(y) == 'M']
+        if cand and rng.random() < 0.5: j = rng.choice(cand)
+        self.emit(f'killraise {j}')
+        if sh.st[i] == 'U':
+            self.emit(f'delraw {i}'); sh.set(i, 'D'); sh.closure([i], sh.running)
+        else:
+            self.emit(f"{'delroot' if sh.root.get(i) and rng.random() < 0.5 else 'del'} {i}")
+            if sh.running: sh.set(i, 'D'); sh.closure([i], True)
+        self.emit(f'unkill {j}'); sh.kills[j] = []
+        return True
     def delraw(self):
         sh = self.sh
         i = sh.pick(self.rng, 'U')
@@ -196,7 +215,8 @@ class Builder:
         if not sh.running and rng.random() < 0.4: self.emit('start'); sh.running = True; return
         if r < p_new: self.new() or self.delete()
         elif r < p_new + 0.22: self.delete() or self.new()
-        elif r < p_new + 0.30: self.mem()
+        elif r < p_new + 0.285: self.mem()
+        elif r < p_new + 0.30: self.delraise() or self.mem()
         elif r < p_new + 0.40: self.sweep()
         elif r < p_new + 0.42: self.sweep(collect=True)
         elif r < p_new + 0.47: self.kill()
@@ -224,6 +244,7 @@ def grow_case(rng, name, fam_k, n_ids, every=1, kills=True):
             if rng.random() < 0.03: b.mem()
             if kills and rng.random() < 0.02: b.kill()
             if kills and rng.random() < 0.004: b.delnull()
+            if kills and rng.random() < 0.004: b.delraise()
         if rnd == 0:
             while len(b.sh.by['M']):
                 b.delete()
@@ -239,7 +260,7 @@ def ideal_cases(hi, chunk=50000):
     return [Case(f'ideal{lo//chunk}', [f'ideal {lo} {min(hi, lo + chunk)}']) for lo in range(0, hi, chunk)]
 
 def _entries(o):
-    e = o.rsplit(' e=', 1)[1] if ' e=' in o else '-'
+    e = o.rsplit(' e=', 1)[1].split(' pend=')[0] if ' e=' in o else '-'
     if e in ('-', '') or e.startswith('#'): return None
     out = []
     for it in e.split(','):
@@ -279,7 +300,14 @@ class C17(Spec):
                   'C17_progress_all_destructors_old_refuted / C17_progress_destructors_old_partial (gcCfgOldRem: a destructor calling del(NULL) was fine '
                   'under del, ValueError inside GC_Sweep; fix d3e4e44); C17_collection_ignores_stale_marks / C17_teardown_ignores_stale_marks vs '
                   'C17_stale_marks_old_refuted (gcCfgOldMark: a mark bit left by an interrupted mark phase kept a dead object registered; GC_Mark and '
-                  'GC_Del call GC_Unmark first: gcMark_unmarks_first, fix d8f0c4f). C17_invB_sound: the executable '
+                  'GC_Del call GC_Unmark first: gcMark_unmarks_first, fix d8f0c4f). Destructors that raise (execR / gcRemR / gcSweepR / gcSetR, the functions '
+                  'the driver runs; C17_model_without_raise: with no raising destructor they are exec / gcRem / gcSweep / gcSet): C17_rem_raising — an explicit '
+                  'del whose destructors raise, for every K and every set R of raising destructors, from every reachable state leaves an exact registry; '
+                  'C17_rem_raising_any_state (any well-formed state, also with a stale pending list); C17_sweep_raising_partial — GC_Sweep with raising '
+                  'destructors keeps table, mem, count, bounds exact for a sub-ledger of the survivors, what is still listed is reclaimed and '
+                  'unregistered, Exact when no exception left the loop; C17_dtor_raise_refuted (known finding KF-C17-dtor-raise: the exception leaves '
+                  'the release loop, the pending list stays set outside a collection, the objects still listed are neither registered nor finalised). '
+                  'C17_invB_sound: the executable '
                   'invariant the driver evaluates implies the propositional one. Source-derived: GC_Ideal_Size(n) > n over the generated prime table '
                   'and load factor, GC_Probe = cyclic distance, GC_Hash = p/8. The model is tied to the real GC.c by comparing the complete entry '
                   'array, counters, bounds and deallocation order after every operation on histories whose addresses collide modulo every registry size.')
@@ -290,7 +318,7 @@ class C17(Spec):
                   'the sweep lists the reclaimed objects), not a function of the history. '
                   'Not covered: the mark phase itself (C01), finalisation accounting (C06), other threads (C13), allocation inside destructors.')
     rule = ('histories of new/newroot/newraw/tnew/tnewx(threshold path of GC_Set, exact: marks reduced to roots+listed+new between the real GC_Mark and '
-            'GC_Sweep)/del/delroot/delraw/delnull/killnull(destructor calls del(NULL); also left armed for collections)/mem/sweep(marked set)/collect(real '
+            'GC_Sweep)/del/delroot/delraw/delnull/killnull(destructor calls del(NULL); also left armed for collections)/killraise(destructor leaves by an exception; armed for one explicit deletion)/mem/sweep(marked set)/collect(real '
             'GC_Mark)/stalemark(mark bits left by an interrupted mark phase, then collect/tnewx/sweep)/kill/stop/start over probe objects whose '
             'addresses are chosen in one residue class modulo the product of the first k registry sizes 5,11,23,53,101,197,389 (k = 3..7) plus strays; '
             '(a) mixed histories over small pools (tables of 1..101 slots, constant wrap-around, grow and shrink), (b) growth through the primes to '
@@ -305,14 +333,20 @@ class C17(Spec):
                     'harness probe inside GC_Mark (stale mark bits): the Mark instance of the probe type, called by the root loop of GC_Mark',
                     'mmap at a fixed address, fork (libc) in the harness')
     assumptions = ('a new object\'s address is non-NULL, 8-byte aligned and differs from the live managed ones (malloc); counts < 2^53',
-                   'objects are released through del / del_root / del_raw or the collector, never through dealloc / dealloc_root while registered '
-                   '(known finding KF-C17-dealloc-stale: witness corpus/kf_c17_dealloc.ops, never generated)',
+                   'registered objects are released through del / del_root or the collector, unregistered ones through del_raw; never through '
+                   'dealloc / dealloc_root / del_raw while registered (del_raw is dealloc(destruct(self)) without GC_Rem: one more entrance to '
+                   'known finding KF-C17-dealloc-stale; witness corpus/kf_c17_dealloc.ops, never generated)',
+                   'a destructor that raises is generated under explicit del / del_root / del_raw outside a collection only (killraise; in contract: '
+                   'C17_rem_raising); one that raises inside the release loop of GC_Sweep is known finding KF-C17-dtor-raise (witness '
+                   'corpus/kf_c17_dtor_raise.ops, never generated)',
                    'generated histories follow the code in the stop..start window (allocation not recorded, del ignored: the ledger of theorem '
                    'C17_registry_exact); against the ledger of the property text this window is known finding KF-C17-stopped (op `strict`, witness '
                    'corpus/kf_c17_stopped.ops, never generated)',
                    'stalemark (stale mark bits) is generated only while a managed root is registered: the harness checks GC_Mark\'s prologue from '
                    'the root loop; without a root the bits are only compared with the model after the collection',
-                   'destructors delete but do not allocate managed objects during a sweep; the mark phase does not call del',
+                   'destructors delete (and may raise) but do not allocate managed objects during a sweep — the nested GC_Set -> GC_Mark; GC_Sweep '
+                   'replaces the pending list under the running release loop: C06\'s known finding KF-C06-dtor-alloc, theorem '
+                   'C06_dtor_alloc_collect_refuted; `K` (what a destructor deletes) has no allocation —; the mark phase does not call del',
                    'single thread (each thread has its own registry)')
     def cases(self, rng, tier, boost=1):
         quick = tier == 'quick'
@@ -341,7 +375,8 @@ class C17(Spec):
         items = set(); prev_n = None
         for o in core.lines_with('O ', c_out):
             w = o.split()
-            if len(w) < 4 or w[1] not in ('new', 'newroot', 'tnew', 'tnewx', 'del', 'delroot', 'delraw', 'delnull', 'sweep', 'sweepmod', 'collect', 'stalemark'): continue
+            if len(w) < 4 or w[1] not in ('new', 'newroot', 'tnew', 'tnewx', 'del', 'delroot', 'delraw', 'delrawm', 'delnull', 'sweep', 'sweepmod', 'collect', 'stalemark'): continue
+            if w[2] == 'raised': items.add(hashlib.md5(o.encode()).hexdigest())
             n = o.split(' n=')[1].split()[0] if ' n=' in o else None
             fin = o.split(' fin=')[1].split(' |')[0] if ' fin=' in o else ''
             es = _entries(o)
@@ -362,6 +397,7 @@ class C17(Spec):
             if prev_n is not None and n > prev_n: acc['rehash_grow'] = acc.get('rehash_grow', 0) + 1
             if prev_n is not None and n < prev_n: acc['rehash_shrink'] = acc.get('rehash_shrink', 0) + 1
             prev_n = n
+            if w[2] == 'raised': acc['ops_left_by_destructor_exception'] = acc.get('ops_left_by_destructor_exception', 0) + 1
             fin = o.split(' fin=')[1].split(' |')[0]
             nf = int(fin[1:].split(':')[0]) if fin.startswith('#') else (len(fin.split(',')) if fin else 0)
             if w[1] in ('sweep', 'sweepmod', 'collect') and nf: acc['collections_that_freed'] = acc.get('collections_that_freed', 0) + 1
@@ -377,7 +413,7 @@ class C17(Spec):
             elif ' e=#' in o: acc['dumps_digest'] = acc.get('dumps_digest', 0) + 1
         for l in core.lines_with('R bad', m_out): acc['model_selfcheck_failures'] = acc.get('model_selfcheck_failures', 0) + 1
         for l in core.lines_with('I ', c_out):
-            for k in ('del_null_during_sweep', 'gc_mark_probes_clear', 'gc_mark_probes_stale'):
+            for k in ('del_null_during_sweep', 'gc_mark_probes_clear', 'gc_mark_probes_stale', 'destructor_raises', 'destructor_raises_in_release_loop'):
                 if f' {k}=' in l: acc[k] = acc.get(k, 0) + int(l.split(f' {k}=')[1].split()[0])
     def model_selfcheck(self, case, m_out):
         bad = core.lines_with('R bad', m_out)
